@@ -173,6 +173,26 @@ func RunPipeline(seed int64, tier, driver, outDir string, search bool) *core.Res
 		}
 	}
 	res.Extra["index_view_scenarios"] = ni
+	// (e') two callers, one condition, two contexts
+	nt := 300
+	if tier == "thorough" {
+		nt = 6000
+	}
+	for i := 0; i < nt; i++ {
+		fs, line := TwoCtxScenario(seed*100069 + int64(i))
+		res.Evaluations++
+		for _, f := range fs {
+			key := "twoctx|" + msgHead(f)
+			if failSeen[key] {
+				continue
+			}
+			failSeen[key] = true
+			file := filepath.Join(outDir, fmt.Sprintf("C20-seed%d-twoctx%d.ycase", seed, len(res.Failures)))
+			os.WriteFile(file, []byte(fmt.Sprintf("# two contexts: %s\n%s\n", f, line)), 0o644)
+			res.Failures = append(res.Failures, core.FailRec{Prop: "C20", Msg: f + " [" + line + "]", File: file})
+		}
+	}
+	res.Extra["two_context_scenarios"] = nt
 	// (e) what the wait helpers report
 	nsem := 60
 	if tier == "thorough" {
